@@ -1,6 +1,6 @@
 CONSTANTS
   Images = {"i1","i2","i3","i4"}
-  Names = {"a","b","c","d"}
+  Names = {"a","b","c","endorsement"}
   Design = "code"
 SPECIFICATION Spec
 VIEW view
